@@ -1179,6 +1179,7 @@ func (m *Machine) binop(op token.Token, a, b Value, t types.Type) Value {
 	}
 	switch {
 	case typeIsString(t):
+		a, b = forceLazy(a), forceLazy(b)
 		_, sa := a.(string)
 		_, sb := b.(string)
 		if sa && sb {
@@ -1359,6 +1360,7 @@ func (m *Machine) not(v Value) Value {
 
 // equal implements == for all comparable kinds.
 func (m *Machine) equal(a, b Value, t types.Type) Value {
+	a, b = forceLazy(a), forceLazy(b)
 	switch x := a.(type) {
 	case bool, int64, string, *Term:
 		_ = x
@@ -1527,6 +1529,7 @@ func (m *Machine) convert(v Value, from, to types.Type) Value {
 
 // stringLen makes the length of a string concrete on this path (forking).
 func (m *Machine) stringLen(v Value) int {
+	v = forceLazy(v)
 	switch s := v.(type) {
 	case string:
 		return len([]rune(s))
@@ -1718,6 +1721,7 @@ func (m *Machine) concreteKeyEq(a, b Value) bool {
 }
 
 func (m *Machine) keyEq(a, b Value) Value {
+	a, b = forceLazy(a), forceLazy(b)
 	switch x := a.(type) {
 	case string, int64, bool, *Term:
 		return fromTerm(Eq(toTerm(a), toTerm(b)))
